@@ -182,3 +182,8 @@ for _k, _t in _ADD.items():
 # AddressSanitizer build of the harness (tools/layers.py, layer "asan").
 for _k, _v in PROPS.items():
     _v["layers"] = ["asan"] + [l for l in _v.get("layers", []) if l != "asan"]
+    _extra = "AddressSanitizer build of the same workload" + (", Miri" if "miri" in _v["layers"] else "") + (", libFuzzer+ASan" if "fuzz" in _v["layers"] else "")
+    if "thorough tier" not in _v["technique"]:
+        _v["technique"] += "; thorough tier adds: " + _extra
+    elif "AddressSanitizer build" not in _v["technique"]:
+        _v["technique"] += " and an AddressSanitizer build of the same workload"
